@@ -185,6 +185,95 @@ Theorem C20_no_nil_panic : forall c s, cfg_ok c -> nilfix c = true -> reachable 
 Proof. exact no_nil_panic. Qed.
 Print Assumptions C20_no_nil_panic.
 
+(* ================================================================ refused batches and the retry wait
+   Sched/HandshakeRetry.v: the system above extended by (1) a rescan batch that ends REFUSED
+   (ErrImportingContinuable: the node is off the follower's chain at the batch's upper height — the
+   environment decides, out of a finite budget [e_refuse] of refusals in the state, any number), (2) the
+   worker's RETRY WAIT after the deferred resume (select on quit / time.After(importRetryDelay)) and (3) the
+   re-queue of the task with its work unchanged (non-blocking push, as before).  The handler leaves at quit
+   WITHOUT draining its block queue (t_hquit, unchanged).  [c : rcfg] = a configuration of the system above +
+   the switch [wait_while_queued] (false = the code of /repo; true = the seeded variant that repeats the
+   pause while the block queue is non-empty).  Proofs: Sched/HandshakeRetryProofs.v. *)
+Require Import MW.Sched.HandshakeRetry MW.Sched.HandshakeRetryProofs.
+
+(* the extension embeds the system above: with no refusal to come and none under way it has exactly the
+   steps of Handshake.v, label by label (so every schedule judged against the old model is judged the same) *)
+Theorem C20_retry_embeds_handshake : forall c b,
+  rstep_l c (rinit b 0) = map (fun p => (Lb (fst p), rinit (snd p) 0)) (step_l (bcfg c) b).
+Proof. exact rstep_conservative. Qed.
+Print Assumptions C20_retry_embeds_handshake.
+
+(* no livelock in the code of /repo: every step — refusals, retry waits, re-queues included — strictly
+   decreases [rrank] = rank + 8 per refusal to come + 7 while a refused batch awaits its resume + 1 in the wait *)
+Theorem C20_retry_every_step_progress : forall c s s',
+  wait_while_queued c = false -> In s' (rstep c s) -> rrank s' < rrank s.
+Proof. exact rstep_rank. Qed.
+Print Assumptions C20_retry_every_step_progress.
+
+(* the running system: a reachable state can move unless nothing is left to do (and then the worker is
+   neither waiting to retry nor holding a refused batch) *)
+Theorem C20_retry_no_deadlock_running : forall c s,
+  cfg_ok (bcfg c) -> rreachable c s -> spc (base s) = Sidle ->
+  rcan_step c s \/ (idle (base s) /\ rwait (ext s) = false /\ refused (ext s) = false).
+Proof. exact rno_deadlock_running. Qed.
+Print Assumptions C20_retry_no_deadlock_running.
+
+(* C20_tasks_finish WITH REFUSED BATCHES.  Fairness premise, explicit: refusals are finitely many — the state
+   the run starts in carries the number [e_refuse (ext s)] of refusals the environment will still cause, ANY
+   number (and spends them on any batches of any imports).  Then, without Stop, from every reachable state
+   (any number of announcements queued, worker anywhere incl. in a retry wait): every maximal run ends with
+   both loops parked, every announced block processed, every accepted import/removal finished, none dropped,
+   none aborted; a run has at most rank + 8 * (refusals to come) + 8 steps; a maximal run exists. *)
+Theorem C20_tasks_finish_retry : forall c s,
+  cfg_ok (bcfg c) -> wait_while_queued c = false -> rreachable c s -> no_stop (base s) ->
+  (forall s', rsteps c s s' -> rstuck c s' ->
+     all_done (base s') /\ rwait (ext s') = false /\ refused (ext s') = false) /\
+  (forall n s', rsteps_n c n s s' -> n <= rank (base s) + 8 * e_refuse (ext s) + 8) /\
+  (exists s', rsteps c s s' /\ rstuck c s').
+Proof. exact retry_tasks_finish. Qed.
+Print Assumptions C20_tasks_finish_retry.
+
+(* ... and the premise is needed: for every k the environment that refuses k batches keeps a single accepted
+   import unfinished for 6 k steps (an environment that refuses for ever — the node never returns to the
+   follower's chain — keeps it unfinished for ever, legitimately) *)
+Theorem C20_retry_refusals_delay_unboundedly : forall k,
+  exists s, rsteps_n rcfg_code (6 * k) (rinit (init_state true 0 [] [ {| t_kind := Imp; t_more := 0 |} ] false) k) s /\
+            n_ref (ext s) = k /\ n_fin (gh (base s)) = 0 /\ n_acc (gh (base s)) = 1.
+Proof. exact refusals_unbounded_delay. Qed.
+Print Assumptions C20_retry_refusals_delay_unboundedly.
+
+(* C20_stop_terminates WITH REFUSED BATCHES AND RETRY WAITS (repaired hand-shake, the code of /repo): once
+   Stop has been or will be called — from EVERY reachable state: any number of announcements queued, any
+   number of refused batches behind and still to come, the worker in the retry wait, at the moment of the
+   refusal (refused batch, resume not yet done), between the end of the wait and the re-queue, right after
+   the re-queue, the handler inside a block or gone with blocks still queued — every maximal run ends with
+   the database closed and BOTH goroutines gone, after at most rank + 8 * (refusals to come) + 8 steps;
+   a maximal run exists *)
+Theorem C20_stop_terminates_retry : forall c s,
+  cfg_ok (bcfg c) -> f1fix (bcfg c) = true -> wait_while_queued c = false ->
+  rreachable c s -> stop_coming (base s) ->
+  (forall s', rsteps c s s' -> rstuck c s' ->
+     stopped (base s') /\ hpc (base s') = Hdone /\ kpc (base s') = Kdone) /\
+  (forall n s', rsteps_n c n s s' -> n <= rank (base s) + 8 * e_refuse (ext s) + 8) /\
+  (exists s', rsteps c s s' /\ rstuck c s').
+Proof. exact retry_stop_terminates. Qed.
+Print Assumptions C20_stop_terminates_retry.
+
+(* SEEDED VARIANT (the pause is repeated while len(queueBlock) > 0): for every hand-shake protocol whose
+   task queue is created by Start, all capacities, every number q+1 of queued announcements (that fits the
+   block queue), every further list of API requests and refusals — a REACHABLE state after Stop was requested
+   (import refused, worker in the retry wait, q+1 blocks announced, Stop, the handler leaves on quit without
+   draining its queue) from which NO run ever closes the database; no run gets stuck either (the worker
+   spins: the quit case fires at once on every pass, the queue never empties), runs of every length exist *)
+Theorem C20_retry_wait_while_queued_refuted : forall c q reqs r,
+  cfg_ok (bcfg c) -> nilfix (bcfg c) = true -> wait_while_queued c = true -> S q <= qcap (bcfg c) ->
+  exists s, rreachable c s /\ stop_requested (base s) /\ qb (base s) = S q /\
+            e_tasks (base s) = reqs /\ e_refuse (ext s) = r /\
+            (forall s', rsteps c s s' -> ~ stopped (base s') /\ rcan_step c s') /\
+            (forall n, exists s', rsteps_n c n s s').
+Proof. exact retry_wait_while_queued_refuted. Qed.
+Print Assumptions C20_retry_wait_while_queued_refuted.
+
 (* non-vacuity / concrete runs (closed terms, vm_compute) *)
 Example C20_ex_cfg_ok : cfg_ok cfg_found /\ cfg_ok cfg_repaired.
 Proof. unfold cfg_ok, busy_threshold; cbn. repeat split; auto with arith. Qed.
@@ -242,4 +331,31 @@ Example C20_ex_startup_six :
   let rst := [imp 1; rem 0; imp 0; rem 0; imp 0; rem 0] in
   let s := start_state (cfg_cap (start_cap 7)) 0 [] rst false in
   (cap (cfg_cap (start_cap 7)), tasks s, n_drop (gh s), n_acc (gh s)) = (7, rst, 0, 6).
+Proof. vm_compute. reflexivity. Qed.
+
+(* the seed's hang as a closed run (3 blocks queued): left-over import taken, batch refused, resume, three
+   announcements, Stop, handler leaves; in the seeded variant the only successors of the state are API-free
+   passes through the wait that lead back to it; in the code of /repo the same labels lead to a state whose
+   maximal continuation closes the database *)
+Example C20_ex_retry_spin_seeded :
+  match rexec_lab rcfg_seeded (spin_run 2) (spin_init 2 [] 0) with
+  | Some s => (s = spin_state 2 [] 0) /\ rstep rcfg_seeded s = [s; s]
+  | None => False
+  end.
+Proof. vm_compute. split; reflexivity. Qed.
+
+Example C20_ex_retry_same_run_code :
+  match rexec_lab rcfg_code (spin_run 2 ++ [Trquit; Lb Tkpush; Lb Tkquit; Lb Tswait; Lb Lz]) (spin_init 2 [] 0) with
+  | Some s => (spc (base s), hpc (base s), kpc (base s), qb (base s), rstep rcfg_code s) = (Sdone, Hdone, Kdone, 3, [])
+  | None => False
+  end.
+Proof. vm_compute. reflexivity. Qed.
+
+(* an import refused twice and then let through finishes (no Stop): two refusals, one finished task *)
+Example C20_ex_retry_refused_twice_finishes :
+  match rexec_lab rcfg_code (retry_loop ++ retry_loop ++ [Lb Tktake; Lb Lkb; Lb Lkc; Lb Tkres])
+                  (rinit (init_state true 0 [] [ {| t_kind := Imp; t_more := 0 |} ] false) 2) with
+  | Some s => (n_ref (ext s), n_fin (gh (base s)), n_acc (gh (base s)), kpc (base s), rstep rcfg_code s) = (2, 1, 1, Ksel, [])
+  | None => False
+  end.
 Proof. vm_compute. reflexivity. Qed.
